@@ -42,6 +42,53 @@ def _child(conn):
     conn.close()
 
 
+def check_scalar_subclass(rep, base, m, c, psub, q, wit):
+    """A value of a subclass of a supported scalar type is either rejected by construction (TaskError) or it is a
+    parameter value like any other: the task equals the one built from the equal plain scalars, and everything
+    that works for that one (hash, serializer, dependency search, pickled copies) works for it."""
+    import dataclasses
+    import pickle
+    from labtech.exceptions import TaskError
+    from labtech.serialization import Serializer
+    from labtech.tasks import find_tasks_in_param, get_direct_dependencies
+    from vlab.props.c07 import build
+    try:
+        t = build(m, c, psub, q)
+    except TaskError:
+        rep.count('scalar_subclass_rejected')
+        return
+    except BaseException as ex:   # noqa
+        rep.violation('unsupported-wrong-exception', f'scalar subclass value: construction raised '
+                      f'{type(ex).__name__}: {ex} instead of TaskError', wit)
+        return
+    rep.count('scalar_subclass_accepted')
+    if t != base or hash(t) != hash(base):
+        rep.violation('equal-parameters-unequal-tasks', f'{t!r} != {base!r} (or hashes differ) although the '
+                      f'parameters are equal', wit)
+    try:
+        Serializer().serialize_task(t)
+        for f in dataclasses.fields(t):
+            find_tasks_in_param(getattr(t, f.name))
+        deps = [d.cache_key for d in get_direct_dependencies(t)]
+    except BaseException as ex:   # noqa
+        rep.violation('accepted-but-unserializable', f'{t!r} (scalar subclass values) was accepted by construction, '
+                      f'then: {type(ex).__name__}: {ex}', wit)
+        return
+    if deps != [d.cache_key for d in get_direct_dependencies(base)]:
+        rep.violation('copy-deps-differ', f'{t!r}: other dependencies than the task built from plain scalars', wit)
+    for proto in (0, pickle.HIGHEST_PROTOCOL):
+        try:
+            cp = pickle.loads(pickle.dumps(t, protocol=proto))
+            cdeps = [d.cache_key for d in get_direct_dependencies(cp)]
+        except BaseException as ex:   # noqa
+            rep.violation('pickle-fails', f'scalar subclass values, protocol {proto}: {type(ex).__name__}: {ex}', wit)
+            continue
+        if cp != t or hash(cp) != hash(t) or cp.cache_key != t.cache_key:
+            rep.violation('copy-not-equal', f'scalar subclass values, protocol {proto}: copy {cp!r} != {t!r}', wit)
+        if cdeps != deps:
+            rep.violation('copy-deps-differ', f'scalar subclass values, protocol {proto}: get_direct_dependencies differs', wit)
+
+
 def check_copy(rep, base, copy, how, wit, derived_expected):
     from vlab.body import walk_deps
     from labtech.tasks import get_direct_dependencies
@@ -81,6 +128,7 @@ def run_shard(rep):
     rep.require('supported_trees', 1000)
     rep.require('unsupported_trees', 500)
     rep.require('spawn_crossings', 20)
+    rep.require('scalar_subclass_accepted', 200)
     ser = Serializer()
     spawn_queue = []
     j = rep.shard
@@ -164,6 +212,11 @@ def run_shard(rep):
                 find_tasks_in_param(getattr(base, f.name))
         except BaseException as ex:   # noqa
             rep.violation('accepted-but-unserializable', f'{base!r}: {type(ex).__name__}: {ex}', wit)
+        # ---------- equal scalars whose type is a subclass of str / int / float (numpy.float64 and friends)
+        psub = valgen.with_scalar_subclasses(rng, p) if rng.random() < 0.25 else None
+        if psub is not None:
+            wsub = {'module': m, 'cls': c, 'p': psub, 'q': q, 'scalar_subclass': True}
+            check_scalar_subclass(rep, base, m, c, psub, q, wsub)
         # give the original a context, a results map and a result_meta: none may travel
         base.set_context({'secret': 'ctx'})
         base._set_results_map({base: TaskResult(value=1, meta=ResultMeta(start=None, duration=None))})
@@ -222,6 +275,11 @@ def replay(rep, wit):
     rep.case('a', True)
     rep.case('b', True)
     from labtech.exceptions import TaskError
+    if w.get('scalar_subclass'):
+        from vlab import valgen
+        base = build(w['module'], w['cls'], valgen.plain_scalars(w['p']), w['q'])
+        check_scalar_subclass(rep, base, w['module'], w['cls'], w['p'], w['q'], w)
+        return
     try:
         t = build(w['module'], w['cls'], w['p'], w['q'])
     except TaskError:
